@@ -1103,6 +1103,7 @@ func (p *publishAsyncSession) publishLoop() error {
 			p.logger.Errorf("api: Failed to authorize call on resource: %v", err)
 			permissionDeniedAsyncError := &client.PublishAsyncError{Code: client.PublishAsyncError_PERMISSION_DENIED, Message: err.Error()}
 			p.sendPublishAsyncError(req.CorrelationId, permissionDeniedAsyncError)
+			continue
 		}
 
 		if e := p.ensurePublishPreconditions(req); e != nil {
